@@ -69,8 +69,8 @@ func c01(tier string) int {
 
 func c02(tier string) int {
 	plans := []seq.Plan{
-		{Family: "iso", Params: "keys=1,slots=2", From: 1, To: 5},
-		{Family: "iso", Params: "keys=2,slots=2,deflevel=1", From: 1, To: 4},
+		{Family: "iso", Params: "keys=1,slots=2", From: 1, To: 6},
+		{Family: "iso", Params: "keys=2,slots=2,deflevel=1", From: 1, To: 5},
 	}
 	if tier == "thorough" {
 		plans = []seq.Plan{
@@ -83,7 +83,7 @@ func c02(tier string) int {
 	if tier == "thorough" {
 		conf = []seq.Plan{{Family: "real-iso", Params: "keys=1,slots=2,gc=0", From: 4, To: 4}, {Family: "real-iso", Params: "keys=2,slots=2,gc=0", From: 3, To: 3}}
 	}
-	return seqCheckConf("C02", tier, 90*time.Second, 20*time.Minute, plans, conf,
+	return seqCheckConf("C02", tier, 300*time.Second, 20*time.Minute, plans, conf,
 		"all sequential interleavings up to the stated depth of autocommit Set/Delete, Begin(4 levels)/Set/Delete/Commit/Rollback in 2-3 transaction slots and GC at any position; after every step Get of every key and GetKeys through every open transaction and the autocommit handle compared with the isolation model",
 		seqAssumptions)
 }
